@@ -9,6 +9,7 @@ package main
 
 import (
 	"bytes"
+	crand "crypto/rand"
 	"fmt"
 	"math/big"
 
@@ -250,6 +251,24 @@ func main() {
 			R.NT(h)
 		}
 	})
+	// s*P is a function of (s, P) alone: with the process-wide default entropy source (crypto/rand.Reader) stuck at
+	// a constant - all zero, all ones, the bytes of p (zero after reduction) - every path still returns s*P
+	// (sequential section: the reader is process-global)
+	saved := crand.Reader
+	for _, src := range []string{"zero", "ff", "hex:" + fmt.Sprintf("%x", ref.P), "counter"} {
+		crand.Reader = mc.Script{Src: src, Mode: "full", FailAfter: -1}.New()
+		for si, s := range []mc.Val{sc[0], sc[nGLV/2], sc[nGLV-1], sc[len(sc)-1]} {
+			for path := range paths {
+				R.T(1)
+				p := pts[(si+path)%len(pts)]
+				if m := mc.Safe(func() string { return runMul(s.V, p.P, zs[path%len(zs)], path, path%2 == 1) }); m != "" {
+					R.Fail("mul/default entropy source stuck at a constant", "misc", map[string]any{"crypto_rand_reader": src, "s": mc.HexBig(s.V), "point": p.Label, "path": paths[path], "what": m}, nil)
+				}
+			}
+		}
+	}
+	crand.Reader = saved
+	R.Class("multiplications with crypto/rand.Reader stuck at a constant", int64(4*4*len(paths)))
 	if R.Expired() {
 		R.Cap("stopped by the internal time budget")
 	}
